@@ -3,6 +3,7 @@ package c05
 import (
 	"fmt"
 	"hash/fnv"
+	"net"
 	"net/http"
 	"net/http/httptest"
 	"reflect"
@@ -105,7 +106,7 @@ func mkRequest(policy, key string) *http.Request {
 	r := httptest.NewRequest("GET", "/", nil)
 	switch policy {
 	case "ip_hash":
-		r.RemoteAddr = key + ":1234"
+		r.RemoteAddr = net.JoinHostPort(key, "1234") // an IPv6 key gets its brackets here, as net/http writes it
 	case "uri_hash":
 		r.RequestURI = "/" + key
 		r.URL.Path = "/" + key
@@ -149,8 +150,26 @@ func runSelect(c *selCase) error {
 	if c.Policy == "random" || c.Policy == "least_conn" {
 		reps = 4
 	}
+	// another upstream block of the same site with the same policy takes requests in between: what one
+	// block does must not depend on the traffic of another
+	var other proxy.Upstream
+	// (only for round_robin: the header policy's fall-back for requests without the header deliberately
+	// shares one package-level counter between blocks, and the statement says nothing about that fall-back)
+	if c.Policy == "round_robin" {
+		if o, _, err := buildUpstream(c.Policy, 2, c.MaxFails, c.MaxConns, ""); err == nil {
+			other = o
+			defer other.Stop()
+		}
+	}
 	var picks []int
 	for k := 0; k < reps; k++ {
+		if c.Policy == "ip_hash" {
+			// the same client comes back from another source port
+			r.RemoteAddr = net.JoinHostPort(c.Key, fmt.Sprint(1234+k*977))
+		}
+		if other != nil {
+			other.Select(r)
+		}
 		h := up.Select(r)
 		if len(avail) == 0 {
 			if h != nil {
@@ -363,6 +382,10 @@ func TestSelectRandom(t *testing.T) {
 			}
 		}
 		c.Key = fmt.Sprintf("10.1.%d.%d", rapid.IntRange(0, 255).Draw(t, "k1"), rapid.IntRange(1, 254).Draw(t, "k2"))
+		if pol == "ip_hash" && rapid.IntRange(0, 2).Draw(t, "v6") == 0 {
+			// IPv6 clients, with and without a zone
+			c.Key = rapid.SampledFrom([]string{"::1", "2001:db8::7", "fe80::1%eth0", "2001:db8:0:1:2:3:4:5", "::ffff:10.0.0.1"}).Draw(t, "k6")
+		}
 		if pol == "header" && rapid.IntRange(0, 5).Draw(t, "nokey") == 0 {
 			c.Key = ""
 		}
